@@ -38,7 +38,7 @@ func init() {
 	register(&Rule{ID: "R05.6", Props: []string{"C05", "C10"}, Floor: 4,
 		Doc: "struct templates: synthesised bodies parse, every size result is consumed, encode order vs reverse decode order",
 		Run: runR05_6})
-	register(&Rule{ID: "R16.1", Props: []string{"C16", "C05", "C01"}, Floor: 10,
+	register(&Rule{ID: "R16.1", Props: []string{"C16", "C05", "C01", "C08"}, Floor: 10,
 		Doc: "tag-only addressing in generated accessors; full-width tag comparison in the table lookup",
 		Run: runR16_1})
 	register(&Rule{ID: "R16.2", Props: []string{"C16", "C17"}, Floor: 19,
@@ -916,7 +916,7 @@ func runR16_1(c *Ctx, registered *R) {
 	// table lookup compares the full tag width: no narrowing conversion of the searched tag on the way to the comparison.
 	// This half also belongs to C05 and C01: a generated accessor (and the dynamic API) reads the field of ITS tag.
 	tmplR := r
-	rw := &R{c: c, rule: &Rule{ID: registered.rule.ID, Props: []string{"C16", "C05", "C01"}}}
+	rw := &R{c: c, rule: &Rule{ID: registered.rule.ID, Props: []string{"C16", "C05", "C01", "C08"}}}
 	defer func() { registered.n += rw.n }()
 	_ = tmplR
 	for _, fname := range []string{"MessageTable.Offset", "messageTable.offset_small", "messageTable.offset_big"} {
